@@ -60,6 +60,8 @@ structure AOps (R : Type) extends Ops R where
   le : R → R → Option Bool
   /-- canonical printing (exact fraction, pair of fractions, or 17-digit decimal) -/
   show_ : R → String
+  /-- whether exp / log / sqrt are available at every argument (Float) or only at exact points -/
+  analytic : Bool
 
 /-- The digit of unit index `i` that input `h` of a Kronecker layer of arity `ar` over inputs with
     `k` units reads: most significant digit first. -/
